@@ -22,7 +22,7 @@ def plot_correlation_heatmap(correlation: DataFrame, output_fn: str):
 
 
 def predicted_vs_observed_scatterplot(
-    model_evaluation: ModelEvaluation, output_fn: str
+    model_evaluation: ModelEvaluation, output_fn: str, rng=None
 ):
     fig, ax = plt.subplots(figsize=(8, 6))
 
@@ -33,6 +33,7 @@ def predicted_vs_observed_scatterplot(
         x=model_evaluation.observations,
         y=model_evaluation.mean_predictions,
         scatter_kws={"color": "black", "s": 3},
+        seed=rng,
     )
 
     ax.annotate(
@@ -53,7 +54,7 @@ def predicted_vs_observed_scatterplot(
 
 
 def predicted_vs_observed_scatterplot_per_sample(
-    model_evaluation: ModelEvaluation, output_fn: str, ncol=3
+    model_evaluation: ModelEvaluation, output_fn: str, ncol=3, rng=None
 ):
     df = DataFrame(
         {
@@ -88,6 +89,7 @@ def predicted_vs_observed_scatterplot_per_sample(
             data=category_data,
             ax=ax,
             scatter_kws={"color": "black", "s": 3},
+            seed=rng,
         )
 
         # Annotating the plot with Spearman's rho
